@@ -332,7 +332,7 @@ func c16Extractors(c *Ctx) {
 			"a ClientID is taken from a DoH path only if it has exactly two segments", "a ClientID can be taken from a path with extra segments", traceOf(p, off2)...)
 		// path is cleaned before splitting
 		okClean := false
-		for _, call := range core.CallsTo(hf, "strings.Split") {
+		for _, call := range core.CallsToDeep(hf, "strings.Split") {
 			if core.IsCallResult(call.Arg(0), -1, "path.Clean") {
 				okClean = true
 			}
